@@ -1036,6 +1036,23 @@ def mw_fold_facts(prog: Program, r: DispatcherRoles) -> Tuple[Dict[str, Any], Li
                         ok_copy = dotted(v) is not None or (isinstance(v, ast.Call) and dotted(v.func) in ('list', 'tuple') and len(v.args) == 1
                                                             and dotted(v.args[0]) is not None)
                         facts['stack'] = norm(v)
+                        # reversed() / [::-1] need a sequence: a constructor argument declared Iterable (a generator, a set, a map
+                        # object are all allowed by that) must be materialised by whoever stores it
+                        if (rev or isinstance(it, ast.Subscript)) and isinstance(v, ast.Name):
+                            init_f = c.methods['__init__']
+                            ann = init_f.param_ann(v.id)
+                            if isinstance(ann, ast.Constant) and isinstance(ann.value, str):
+                                try:
+                                    ann = ast.parse(ann.value, mode='eval').body
+                                except SyntaxError:
+                                    ann = None
+                            head_ = (dotted(ann.value if isinstance(ann, ast.Subscript) else ann) or '').rsplit('.', 1)[-1] if ann is not None else ''
+                            if v.id in {p_.arg for p_ in init_f.params} and head_ in ('Iterable', 'Iterator', 'Collection', 'Generator', 'AbstractSet', 'Set', 'FrozenSet', ''):
+                                problems.append(('MW-FOLD', 'middleware stack stored as given, then reversed', st.lineno,
+                                                 f'`{norm(st)}` keeps the `{v.id}` argument as given — it is declared `{norm(ann) if ann is not None else "untyped"}`, so a '
+                                                 f'generator, an iterator or a set is a legal value — and the chain is built over `{norm(it)}`, which '
+                                                 f'needs a sequence: TypeError at construction for such a value, and no middleware ever runs; '
+                                                 f'the stack must be materialised (`list({v.id})`)'))
                         if not ok_copy:
                             problems.append(('MW-FOLD', 'configured middleware stack is altered before the chain is built', st.lineno,
                                              f'`{norm(st)}`: the stack must be the configured sequence as given (same entries, same order, same '
